@@ -90,9 +90,14 @@ fn judge_log(
             return false;
         }
         let m = &got[0];
-        if *can_drop != e.droppable {
+        // "set only on media the application asked to be droppable": a mark the application did
+        // not ask for is a violation; a mark withheld (say, on a sequence header) is not
+        if e.droppable && !*can_drop {
+            out.count("droppable_asked_but_not_marked", 1);
+        }
+        if *can_drop && !e.droppable {
             out.violation(
-                "droppable-mark-differs-from-what-the-application-asked",
+                "droppable-mark-on-a-packet-the-application-did-not-ask-to-be-droppable",
                 witness(json!({"packet_index": i, "can_be_dropped": can_drop, "asked": e.droppable, "produced_by": e.op})),
             );
             return false;
@@ -456,7 +461,7 @@ impl Check for C18 {
         }
     }
     fn rule(&self) -> String {
-        "session histories of 5-50 steps: the C09 (server) and C10 (client) symbol walks with a quarter of the steps replaced by media / metadata / ping sends (payloads {0,1,127,128,129,5000,70000,200000}, droppable flags, arbitrary timestamps), optionally a peer window announcement so acknowledgements appear; configurations: chunk size {1,2,127,128,129,4096,65536,2^31-1, uniform}, window {1,100,2.5M,2^32-1}, onBWDone on/off. Virtual session clock: start from {0, 2^24-k, 2^24, 2^31+-k, 2^32-k, 2^32-1-j, 2^32+k, 2*2^32+k, uniform 0..2^33} and advance before each call by {0,1,33,40,1000,2^24-1,2^24,2^31}. Every packet every public call returned is logged in order with what the history expects of it. The independent strict decoder must decode the log packet by packet (each packet exactly one whole message), every message body must be well formed per the reference layouts, protocol-control and connection-level messages on message stream 0 and stream-level commands/media on the stream of the operation that produced them, droppable mark exactly as asked (whether session-originated timestamps equal the session clock modulo 2^32 is counted, not judged); then every subset (k <= 5, thorough 8; sampled beyond) of the droppable packets is removed and the rest must decode to exactly the same messages. distinct = (symbol sequence hash, start clock class, packets).".to_string()
+        "session histories of 5-50 steps: the C09 (server) and C10 (client) symbol walks with a quarter of the steps replaced by media / metadata / ping sends (payloads {0,1,127,128,129,5000,70000,200000}, droppable flags, arbitrary timestamps), optionally a peer window announcement so acknowledgements appear; configurations: chunk size {1,2,127,128,129,4096,65536,2^31-1, uniform}, window {1,100,2.5M,2^32-1}, onBWDone on/off. Virtual session clock: start from {0, 2^24-k, 2^24, 2^31+-k, 2^32-k, 2^32-1-j, 2^32+k, 2*2^32+k, uniform 0..2^33} and advance before each call by {0,1,33,40,1000,2^24-1,2^24,2^31}. Every packet every public call returned is logged in order with what the history expects of it. The independent strict decoder must decode the log packet by packet (each packet exactly one whole message), every message body must be well formed per the reference layouts, protocol-control and connection-level messages on message stream 0 and stream-level commands/media on the stream of the operation that produced them, droppable mark never on a packet the application did not ask to be droppable (a mark withheld is counted, not judged; whether session-originated timestamps equal the session clock modulo 2^32 is counted, not judged); then every subset (k <= 5, thorough 8; sampled beyond) of the droppable packets is removed and the rest must decode to exactly the same messages. distinct = (symbol sequence hash, start clock class, packets).".to_string()
     }
     fn assumptions(&self) -> Vec<String> {
         vec![
